@@ -1275,6 +1275,150 @@ fn raw(sqls: &str) -> String {
 
 // ------------------------------------------------------------------------------------------------ generation
 
+/// One item of a LIKE pattern.
+#[derive(Clone, Debug, PartialEq)]
+pub enum LikeItem {
+    /// `%`
+    Pct,
+    /// `_`
+    Und,
+    /// an ordinary character (its bytes)
+    Lit(Vec<u8>),
+    /// backslash + character
+    Esc(Vec<u8>),
+}
+
+/// the characters LIKE subjects are made of: two letters, the three special characters, now and then a character of three
+/// bytes (one that UPPER / LOWER leave alone)
+fn like_char(rng: &mut Rng) -> Vec<u8> {
+    match rng.below(16) {
+        0..=4 => b"a".to_vec(),
+        5..=8 => b"b".to_vec(),
+        9 | 10 => b"%".to_vec(),
+        11 | 12 => b"_".to_vec(),
+        13 | 14 => b"\\".to_vec(),
+        _ => "€".as_bytes().to_vec(),
+    }
+}
+
+/// a subject of 0–8 characters over the small alphabet
+pub fn like_subject(rng: &mut Rng) -> Vec<u8> {
+    let n = rng.below(9);
+    (0..n).flat_map(|_| like_char(rng)).collect()
+}
+
+/// A pattern of 1–8 items over {a, b, %, _, \%, \_, \\} (now and then a three-byte character, an escaped letter, and —
+/// rarely — a lone trailing backslash).  A third of the patterns are forced to have an escape somewhere after a `%`.
+pub fn like_pattern(rng: &mut Rng) -> Vec<LikeItem> {
+    let item = |rng: &mut Rng| match rng.below(20) {
+        0..=3 => LikeItem::Lit(b"a".to_vec()),
+        4..=6 => LikeItem::Lit(b"b".to_vec()),
+        7..=10 => LikeItem::Pct,
+        11..=13 => LikeItem::Und,
+        14 => LikeItem::Esc(b"%".to_vec()),
+        15 | 16 => LikeItem::Esc(b"_".to_vec()),
+        17 => LikeItem::Esc(b"\\".to_vec()),
+        18 => LikeItem::Esc(b"a".to_vec()),
+        _ => LikeItem::Lit("€".as_bytes().to_vec()),
+    };
+    let n = 1 + rng.below(8) as usize;
+    let mut items: Vec<LikeItem> = (0..n).map(|_| item(rng)).collect();
+    if rng.chance(1, 3) {
+        // % … \x …
+        let at = rng.below(items.len() as u64) as usize;
+        items[at] = LikeItem::Pct;
+        let esc = LikeItem::Esc(rng.pick(&[b"_".to_vec(), b"%".to_vec(), b"\\".to_vec()]).clone());
+        let pos = at + 1 + rng.below((items.len() - at) as u64) as usize;
+        items.insert(pos.min(items.len()), esc);
+        items.truncate(8);
+    }
+    items
+}
+
+pub fn like_pattern_bytes(items: &[LikeItem], trailing_escape: bool) -> Vec<u8> {
+    let mut out = Vec::new();
+    for it in items {
+        match it {
+            LikeItem::Pct => out.push(b'%'),
+            LikeItem::Und => out.push(b'_'),
+            LikeItem::Lit(c) => out.extend(c),
+            LikeItem::Esc(c) => {
+                out.push(b'\\');
+                out.extend(c)
+            }
+        }
+    }
+    if trailing_escape {
+        out.push(b'\\');
+    }
+    out
+}
+
+/// a subject the pattern matches (every `_` a character, every `%` 0–3 characters), now and then with one character
+/// changed, dropped or added: true and nearly-true instances, which is where a matcher has to backtrack
+pub fn like_subject_for(rng: &mut Rng, items: &[LikeItem], trailing_escape: bool) -> Vec<u8> {
+    let mut chars: Vec<Vec<u8>> = Vec::new();
+    for it in items {
+        match it {
+            LikeItem::Pct => {
+                for _ in 0..rng.below(4) {
+                    chars.push(like_char(rng));
+                }
+            }
+            LikeItem::Und => chars.push(like_char(rng)),
+            LikeItem::Lit(c) | LikeItem::Esc(c) => chars.push(c.clone()),
+        }
+    }
+    if rng.chance(1, 3) {
+        let at = rng.below(chars.len() as u64 + 1) as usize;
+        match rng.below(3) {
+            0 if at < chars.len() => chars[at] = like_char(rng),
+            1 if at < chars.len() => {
+                chars.remove(at);
+            }
+            _ => chars.insert(at, like_char(rng)),
+        }
+    }
+    chars.truncate(10);
+    // (a pattern that ends in a lone backslash matches nothing, not even a text that ends in one)
+    if trailing_escape && rng.chance(1, 2) {
+        chars.push(b"\\".to_vec());
+    }
+    chars.concat()
+}
+
+/// coverage tags of a pattern
+pub fn like_tags(items: &[LikeItem], trailing_escape: bool) -> Vec<&'static str> {
+    let mut t = vec!["like.fam"];
+    let first_pct = items.iter().position(|i| *i == LikeItem::Pct);
+    if items.iter().any(|i| matches!(i, LikeItem::Esc(_))) {
+        t.push("like.escape");
+    }
+    if let Some(k) = first_pct {
+        if items[k + 1..].iter().any(|i| matches!(i, LikeItem::Esc(_))) {
+            t.push("like.escape-after-wildcard");
+        }
+        if items[k + 1..].iter().any(|i| *i != LikeItem::Pct) {
+            t.push("like.backtrack");
+        }
+    }
+    t.push(match items.iter().filter(|i| **i == LikeItem::Pct).count() {
+        0 => "like.pct.0",
+        1 => "like.pct.1",
+        _ => "like.pct.many",
+    });
+    if items.iter().any(|i| *i == LikeItem::Und) {
+        t.push("like.underscore");
+    }
+    if items.iter().any(|i| matches!(i, LikeItem::Lit(c) | LikeItem::Esc(c) if c.len() > 1)) {
+        t.push("like.multibyte-pattern");
+    }
+    if trailing_escape {
+        t.push("like.trailing-escape");
+    }
+    t
+}
+
 const I32_MIN: i128 = -2147483648;
 const I32_MAX: i128 = 2147483647;
 const I64_MIN: i128 = -9223372036854775808;
@@ -1361,6 +1505,10 @@ impl<'a> Gen<'a> {
             Ty::Int | Ty::BigInt => Val::Int(self.int_val(ty, p)),
             Ty::Bool => Val::Bool(self.rng.chance(1, 2)),
             Ty::Text => {
+                if p != Profile::Dups && self.rng.chance(1, 4) {
+                    // subjects for the LIKE family
+                    return Val::Text(like_subject(self.rng));
+                }
                 let n = if p == Profile::Dups { 3 } else { WORDS.len() };
                 Val::Text(WORDS[self.rng.below(n as u64) as usize].as_bytes().to_vec())
             }
@@ -1611,6 +1759,34 @@ impl<'a> Gen<'a> {
         }
     }
 
+    /// LIKE / NOT LIKE over the small alphabet: patterns with wildcards, escapes (often after a wildcard) and subjects
+    /// that match or nearly match, so that the matcher backtracks
+    fn like_family(&mut self, tys: &[Ty]) -> E {
+        let items = like_pattern(self.rng);
+        let trailing = self.rng.chance(1, 15);
+        for t in like_tags(&items, trailing) {
+            self.tag(t);
+        }
+        let cols = self.cols_of(tys, &[Ty::Text]);
+        let subject = if !cols.is_empty() && self.rng.chance(1, 2) {
+            self.tag("like.subject.col");
+            E::Col(*self.rng.pick(&cols))
+        } else if self.rng.chance(2, 3) {
+            self.tag("like.subject.near-match");
+            E::Lit(Val::Text(like_subject_for(self.rng, &items, trailing)))
+        } else {
+            self.tag("like.subject.random");
+            E::Lit(Val::Text(like_subject(self.rng)))
+        };
+        if matches!(&subject, E::Lit(Val::Text(s)) if s.iter().any(|b| *b >= 0x80)) {
+            self.tag("like.multibyte-subject");
+        }
+        let neg = self.rng.chance(1, 2);
+        self.tag(if neg { "op.nlike" } else { "op.like" });
+        let pat = E::Lit(Val::Text(like_pattern_bytes(&items, trailing)));
+        E::Like(neg, Box::new(subject), Box::new(pat))
+    }
+
     /// `column op literal` across type categories (number vs text vs boolean): a type error of the statement
     fn cross_type_cmp(&mut self, tys: &[Ty]) -> E {
         let c = self.rng.below(tys.len() as u64) as usize;
@@ -1689,6 +1865,9 @@ impl<'a> Gen<'a> {
             7 => {
                 let neg = self.rng.chance(1, 2);
                 let (a, x, t) = self.same_type_pair(tys, p, depth.min(1));
+                // the engine evaluates the list before the tested expression, the spec after it (SQL leaves the order
+                // open): the list elements are leaves, which cannot fail
+                let x = if t == "int" { self.int_expr(tys, p, 0) } else { x };
                 let mut xs = vec![x];
                 for _ in 0..self.rng.below(3) {
                     xs.push(match t {
@@ -1703,6 +1882,9 @@ impl<'a> Gen<'a> {
             }
             8 => {
                 let cols = self.cols_of(tys, &[Ty::Text]);
+                if self.rng.chance(1, 2) {
+                    return self.like_family(tys);
+                }
                 if cols.is_empty() {
                     return self.bool_expr(tys, p, 0);
                 }
